@@ -8,6 +8,7 @@
   Spec (hand-written from README.md): `documented`.
 -/
 import SA.Model.Schemes
+import SA.Gen.PkgVars
 namespace SA.Props.C18
 open SA.Schemes SA.Gen
 
@@ -470,3 +471,18 @@ end SA.Props.C18
 #print axioms SA.Props.C18.C18_channel_flag_name
 #print axioms SA.Props.C18.C18_no_panic_config
 #print axioms SA.Props.C18.C18_dns_server_listens_documented
+
+namespace SA.PkgState
+/-- **no_hidden_process_state**: the models of this property are functions of their arguments and of the objects they are
+    handed; the packages they model keep no package-level variables besides these (regenerated inventory: error
+    sentinels, tables, compiled patterns, the two session time-outs).  A new package-level variable — a counter, a cache, a
+    scratch buffer, a shared map, a registry — would make later calls depend on earlier ones, or concurrent calls on each
+    other, outside anything a per-call comparison of model and code can see. -/
+theorem C18_no_hidden_process_state :
+    Gen.pkgVarNames_addr = ["HasTls", "PlusEnd"] ∧
+    Gen.pkgVarNames_upstream = [] ∧
+    Gen.pkgVarNames_listener = [] ∧
+    Gen.pkgVarNames_server = ["ChannelRegex"] := by decide
+end SA.PkgState
+
+#print axioms SA.PkgState.C18_no_hidden_process_state
